@@ -55,7 +55,13 @@ pub fn gen_text(r: &mut Rng, class: &str, tag: &str) -> String {
         "latin1" => format!("{base} Año café ü ß ¿"),
         "cp1252" => format!("{base} € “q” – — … ‰ Š"),
         "bmp" => format!("{base} Ωμέγα привет 漢字"),
-        "astral" => format!("{base} 😀𝄞"),
+        // astral characters at the ends of the surrogate ranges: U+10000 (D800 DC00), U+103FF and
+        // U+1F3FF (low surrogate DFFF), U+10FFFF (DBFF DFFF)
+        "astral" => match r.below(3) {
+            0 => format!("{base} 😀𝄞"),
+            1 => format!("{base} \u{10000}\u{103FF}👍\u{1F3FF}"),
+            _ => format!("{base} \u{10FFFF}\u{1FFFF}x\u{2FFFF}"),
+        },
         "controls" => format!("{base}\tT\nN\rR"),
         "bomlike" => format!("þÿ{base}"),
         _ => base,
